@@ -814,6 +814,11 @@ func scriptFacts(in c13Input) map[string]any {
 				if readers > 0 && len(writerBefore) > 0 {
 					readerAcross = true // a writer waits for readers at the instant of the shutdown
 				}
+				if len(writerBefore) >= 2 {
+					// one writer holds and another one is still waiting at the instant of the shutdown: the
+					// waiter is then served by shutdownLock while the first still holds (same root cause)
+					across = true
+				}
 			}
 			shutdownSeen = true
 		}
